@@ -305,7 +305,7 @@ impl Prop for C03 {
   }
   fn params(&self, tier: Tier) -> Params {
     match tier {
-      Tier::Quick => Params { cases: 3_000, tape_len: 1500, workers: 14, stack_mb: 64, worker_timeout_s: 1500, shrink_iters: 600 },
+      Tier::Quick => Params { cases: 7_000, tape_len: 1500, workers: 14, stack_mb: 64, worker_timeout_s: 1500, shrink_iters: 600 },
       Tier::Thorough => Params { cases: 80_000, tape_len: 4000, workers: 16, stack_mb: 64, worker_timeout_s: 5 * 3600, shrink_iters: 600 },
     }
   }
